@@ -172,6 +172,42 @@ def _stress(ck, rounds, FakeSnow, bad):  # noqa: N803
     return bad
 
 
+def tx_interleavings(ck):
+    """Two sessions with explicit transactions writing the same primary key, every statement-level interleaving (statements are
+    atomic, so one thread alternating between the two connections realises them all). Oracle only: a session all of whose statements
+    reported success has all its rows in the table, and the table holds nothing else."""
+    import itertools
+
+    from fakesnow.instance import FakeSnow
+
+    bad = []
+    for ida, idb in ((1, 1), (1, 2)):
+        for order in sorted(set(itertools.permutations([0] * 4 + [1] * 4))):
+            fs = FakeSnow()
+            a, b = fs.connect(database="db1", schema="s1"), fs.connect(database="db1", schema="s1")
+            a.cursor().execute("create table pk (id int primary key, who varchar)")
+            scripts = {0: [(a, "begin"), (a, f"insert into pk values ({ida}, 'a')"), (a, "insert into pk values (100, 'a')"), (a, "commit")],
+                       1: [(b, "begin"), (b, f"insert into pk values ({idb}, 'b')"), (b, "insert into pk values (200, 'b')"), (b, "commit")]}
+            pos, ok = {0: 0, 1: 0}, {0: True, 1: True}
+            log = []
+            for s_ in order:
+                c, sql = scripts[s_][pos[s_]]
+                pos[s_] += 1
+                try:
+                    c.cursor().execute(sql)
+                    log.append(f"{'AB'[s_]}: {sql} -> ok")
+                except Exception as e:  # noqa: BLE001
+                    ok[s_] = False
+                    log.append(f"{'AB'[s_]}: {sql} -> {type(e).__name__}")
+            rows = sorted(fs.duck_conn.cursor().execute("select id, who from DB1.S1.PK").fetchall())
+            fs.duck_conn.close()
+            ck.cov["evaluations"] += 1
+            want = sorted(([(ida, "a"), (100, "a")] if ok[0] else []) + ([(idb, "b"), (200, "b")] if ok[1] else []))
+            if rows != want:
+                bad.append({"statements": log, "table": rows, "rows_of_sessions_whose_statements_all_succeeded": want})
+    return bad
+
+
 def main():
     ck = Check("C19", "Steps", "run_c19")
     ck.prepare()
@@ -209,7 +245,7 @@ def main():
                                 [[0, S("dbb"), S("s1")], [2, K("DBB", "S1", "T1"), [S("c3")]], [5, K("DBB", "S1", "T1")]]]),
     }
     cases, impl, labels = [], [], []
-    span = range(0, 16, 1 if thorough else 3)
+    span = range(0, 16, 1 if thorough else 4)
     for name, (su, scripts) in scenarios.items():
         n = len(scripts)
         scheds = [[0] * 60, [1] * 60]
@@ -282,15 +318,22 @@ def main():
                 seen = res[-1][1] if res and res[-1][0] == 3 else None
                 if seen is None or not set(seen) <= {10, 11, 20, 21} or len(seen) != len(set(seen)):
                     report("read", f"{name}: a session read {seen} from the shared table", rep)
+    # (2b) explicit transactions colliding on a key, every statement-level interleaving
+    badtx = tx_interleavings(ck)
+    ck.count("scenario:tx-key-conflict", 140)
+    if badtx:
+        b0 = badtx[0]
+        report("tx", f"two sessions with explicit transactions: {b0['statements']}: the table holds {b0['table']} but the sessions whose statements all reported success wrote "
+                     f"{b0['rows_of_sessions_whose_statements_all_succeeded']} (inserts lost or phantom rows); {len(badtx)} interleavings fail", b0)
     # (3) free-running threads (a test, not a proof): scenarios that are clean on the unchanged tree
-    bad = stress(ck, 40 if thorough else 8)
+    bad = stress(ck, 40 if thorough else 6)
     if bad:
         r, errs = bad[0]
         report("stress", f"free-running threads, round {r}: {errs}; {len(bad)} rounds failed", {"rounds_failed": len(bad), "errors": errs,
                "scenario": "4 threads: connect (same new database / existing database) then 12 x (select own literals, insert into shared table)"})
     # known finding probes under free-running threads are not run: torn statements are shown deterministically above
     ck.cov["distinct_nontrivial"] = len(distinct)
-    ck.cov["exhaustive_space"] = "2-session scenarios: every schedule with <= 2 preemptions at engine-call granularity " + ("(all split points 0..15)" if thorough else "(split points 0,3,..,15)")
+    ck.cov["exhaustive_space"] = "2-session scenarios: every schedule with <= 2 preemptions at engine-call granularity " + ("(all split points 0..15)" if thorough else "(split points 0,4,8,12)")
     ck.cov["samples"] += [{"scenario": labels[5], "model_schedule": impl[5]["schedule"]}]
     return ck.finish(rule="real fakesnow sessions in real threads under a deterministic scheduler (switch points = engine calls + the connect lock): 5 scenarios (connects auto-creating the same database, "
                           "inserts into a shared table, CREATE TABLE ... COMMENT vs an observer, CREATE DATABASE vs a user of the new database, three connects) x schedules; the model follows the "
